@@ -359,6 +359,11 @@ func runC14(c *RunCtx) {
 		}
 	}
 	ctxRacePrograms(c, 64, 400)
+	cyclesPrograms(c, 32, 160)
+	// full workloads on a worker configured with a context, scripts made of Stop/Restart/Pause/Resume:
+	// the listener of every earlier run is still around when the next run starts
+	richPrograms(c, "rich-ctx", 48, 240, richBias{MaxJobs: 6, Cancel: 10, Script: 6, Expiry: 30, RestartHeavy: true, Ctx: 100},
+		ExploreOpts{Base: 3, Noise: c.Q(30, 120), K: c.Q(2, 4), Funcs: anchoredOr(c, []string{"Restart", "Stop", "stop", "start", "startLocked", "Pause", "Resume", "PauseAndWait", "closeChannels", "goEventLoop"}), Pairs: c.Q(20, 120), MaxCases: c.Q(200, 3000)})
 	concLifePrograms(c, 48, 300)
 	// longer random sequences, with stalls around the asynchronous context listener
 	for v := 0; v < c.Q(32, 200); v++ {
